@@ -67,7 +67,7 @@ CHECKS = {
     "C06": {
         "text": "Performances (Performance / PerformedPart / list) generated in the tick domain (exact, near-half and exact-half tick positions, touching notes, shuffled lists, controls, programs, signatures, other meta events, any ppq/mpq, merging on save/load) are saved and re-loaded; three views are compared: the Fraction expectation, the written file read by an independent mido/Fraction interpreter, and the loaded objects (export and import judged separately). Arbitrary generated multi-track MIDI files with set_tempo events anywhere are loaded and compared with the interpreter: seconds by integrating the merged tick-sorted tempo map, next-off pairing incl. zero-velocity note-ons, ids in (onset, pitch, offset, channel, track) order. Exploration.",
         "design_ref": "DESIGN.md 4 C06",
-        "note": "Tracks 0..k-1 each with a note; notes of one key never overlap (touching allowed); exact .5 ties accept either tick; no two set_tempo at one tick; default program times not checked; end_of_track ignored.",
+        "note": "Track numbers may have gaps and tracks / parts may hold controls only (expected file track = rank of the number); notes of one key never overlap (touching allowed); exact .5 ties accept either tick; two set_tempo events at one tick only within one track; default program times not checked; end_of_track ignored.",
         "technique": "property-based testing (Hypothesis): three-way comparison with an independent MIDI interpreter and exact Fraction expectations",
     },
     "C07": {
